@@ -24,7 +24,8 @@ EXPLANATION = (
     "func(*args, **kwargs) for scalars/strings; SOME_GEN_TYPES covers generator, range, enumerate, zip, map, filter. "
     "C01.family: every @elementwise(name, pos) names the parameter at index pos; inline wraps use position 0 on existing "
     "one-argument math functions; log10/log2/str2freq/freq2str delegate their first parameter. Not decided: element "
-    "values (they follow from map/operator, trusted).")
+    "values (they follow from map/operator, trusted)."
+    " Also: C01.dispatch (decision tables, sa/dtable.py): the guards of the Stream operator templates are evaluated for an operand of an ignored class / an iterable / anything else; OpMethod._insert files every operator under all its keys; the table is initialised at import. ")
 
 UNDECIDED = ["element values for each element type (trusted: operator.* and map)"]
 
